@@ -260,7 +260,8 @@ fn run_nnf(ctx: &Ctx, rng: &mut Rng, out: &mut dyn Write) {
                 Ok(mut d) => {
                     writeln!(s, "step 0 load").unwrap();
                     battery(&mut d, &mut s, rng.next());
-                    let e1: Edit = vec![(vec![l], true)];
+                    // sometimes the unit clause is spelled with a repeated literal (reduce_clause must collapse it)
+                    let e1: Edit = vec![(if rng.chance(1, 4) { vec![l, l] } else { vec![l] }, true)];
                     if apply(&mut d, 1, &e1, &mut s, rng.next()) {
                         let e2: Edit = vec![(vec![l], false)];
                         apply(&mut d, 2, &e2, &mut s, rng.next());
